@@ -1165,10 +1165,11 @@ bool tree<Key, Value, ValueEqual>::compare(
               return false;
             }
           } else {
-            if ((compare_left_to_right && !po.default_is_top()) ||
-                (!compare_left_to_right && po.default_is_top())) {
-              return false;
-            }
+            // t is not empty and does not bind key: either the binding of s
+            // is compared with the default value, or the bindings of t (all
+            // on other keys) are. Since a stored value is never the default
+            // value, the comparison fails in both cases.
+            return false;
           }
           if (compare_left_to_right && po.default_is_top() && !t->is_leaf()) {
             return false;
